@@ -130,7 +130,7 @@ impl UiDocumentsCache {
     {
         use std::collections::hash_map::Entry;
         let path = path.as_ref(); // user specified path to be kept in UiDocument object
-        let doc = match self.docs.entry(path.canonicalize_utf8()?) {
+        let doc = match self.docs.entry(cache_key(path)?) {
             Entry::Occupied(e) => e.into_mut(),
             Entry::Vacant(e) => e.insert(UiDocument::read(path)?),
         };
@@ -142,8 +142,7 @@ impl UiDocumentsCache {
     where
         P: AsRef<Utf8Path>,
     {
-        path.as_ref()
-            .canonicalize_utf8()
+        cache_key(path.as_ref())
             .ok()
             .and_then(|p| self.docs.get(&p))
     }
@@ -161,10 +160,28 @@ impl UiDocumentsCache {
     where
         P: AsRef<Utf8Path>,
     {
-        path.as_ref()
-            .canonicalize_utf8()
+        cache_key(path.as_ref())
             .ok()
             .and_then(|p| self.docs.remove(&p))
+    }
+}
+
+/// Key of a document in the cache: the canonical directory joined with the file name as given.
+///
+/// Only the directory part is resolved. If the file name itself were resolved too, two names of one
+/// file (a symbolic link next to its target) would share one document, and the type name of that
+/// document would be the name under which the file happened to be read first.
+fn cache_key(path: &Utf8Path) -> io::Result<Utf8PathBuf> {
+    match (path.parent(), path.file_name()) {
+        (Some(dir), Some(name)) => {
+            let dir = if dir.as_str().is_empty() {
+                Utf8Path::new(".") // Path("foo").parent() returns "", not "."
+            } else {
+                dir
+            };
+            Ok(dir.canonicalize_utf8()?.join(name))
+        }
+        _ => path.canonicalize_utf8(),
     }
 }
 
